@@ -92,7 +92,7 @@ def run(focus, tier, seed):
             total.check(same, "C07", "C07.stable_across_reload", ENGINE, {"kind": "cms", "confidence": conf, "error_rate": er, "width": s.width, "depth": s.depth}, {"kind": "cms"})
     # ---- cuckoo: error_rate x bucket_size
     for idx, (er, near) in enumerate(fl):
-        for bs in ((1, 2, 4, 8) if idx % 3 == 0 else (4,)):
+        for bs in ((1, 2, 3, 4, 5, 6, 7, 8, 12, 16) if idx % 3 == 0 else (4, (3, 5, 6, 7)[idx % 4])):      # powers of two and the sizes between them
             try:
                 c = P.CuckooFilter.init_error_rate(er, capacity=4, bucket_size=bs)
                 c2 = P.CountingCuckooFilter.init_error_rate(er, capacity=4, bucket_size=bs)
